@@ -115,6 +115,28 @@ def check(ctx: Ctx) -> list[RuleResult]:
             r1.ok({"timed_out_site": g2.short, "guard": norm(guards[0].ast)})
         else:
             r1.fail(f"{g2.short}:timed_out-site", g2.loc(n), "a retransmission is requested (timed_out=True) outside the true edge of `tx_count < tx_limit` in expire_state_on_timeout, or from more than one site")
+    # (b') "...and - if its timeout allows - no fewer": inside the expiry callback the command is given up (expired=True) only where
+    # the budget is known to be used up. A give-up that is also reached with transmissions left (an extra "is it still worth it?"
+    # condition on the retry) sends the command fewer times than 1 + min(max_retries, 3)
+    from .common import edge_implies as _eib
+    from .common import expand as _exb
+    from .common import facts_at as _fab
+    from .common import inline_calls as _ilb
+
+    giveups = [n for n in own_nodes(expire.node) if isinstance(n, ast.Call) and isinstance(n.func, ast.Attribute) and n.func.attr == "set_state" and any(k.arg == "expired" and not (isinstance(k.value, ast.Constant) and k.value.value is False) for k in n.keywords)]
+    if not giveups:
+        raise AnalysisError("expire_state_on_timeout: no set_state(..., expired=True) site")
+    goal_b = ast.parse("not (self._cmd_tx_count < self._cmd_tx_limit)", mode="eval").body
+    for n in giveups:
+        r1.instances += 1
+        r1.nontrivial += 1
+        stb = n
+        while not isinstance(stb, ast.stmt):
+            stb = stb.parent  # type: ignore[attr-defined]
+        if any(_eib(_exb(expire.node, _ilb(ctx, expire, t), pure_only=False), v, goal_b) for t, v in _fab(stb)):
+            r1.ok({"give_up_site": norm(n)[:50], "only_when": "tx_count >= tx_limit"})
+        else:
+            r1.fail(f"{expire.short}:gives-up-with-budget-left", expire.loc(n), f"`{norm(n)[:60]}` in the expiry callback is reachable while `tx_count < tx_limit` still holds (the retry is subject to an extra condition): a command whose timeout would still allow it is transmitted fewer than 1 + min(max_retries, 3) times")
     # (c) tx_count writers
     for g2 in repo.funcs.values():
         if g2.module.name != F:
